@@ -19,7 +19,7 @@ for dst,src in ov.items():
 PY
 (cd $OUT/repo && go test -c -cover -coverpkg=./... -vet=off -tags verif -o $OUT/hc.test .)
 REPO=$OUT/repo
-SLICES="tree corpus dets C01 C02 C03 C04 C05 C06 C07 C08 C09 C10 C11 C12 C13 C14 C15 C16 C17 C18 C19 charset json"
+SLICES="tree corpus dets C01 C02 C03 C04 C05 C06 C07 C08 C09 C10 C11 C12 C13 C14 C15 C16 C17 C18 C19 charset json heap big isx"
 for s in $SLICES; do
   ( cd $REPO && VERIF_COVER=1 VERIF_CMD=gen VERIF_SLICE=$s VERIF_SEED=${VERIF_SEED:-1} VERIF_TIER=$TIER VERIF_FACTS=/verif/build/facts.json \
     $OUT/hc.test -test.run='^$' -test.coverprofile=$OUT/$s.prof >/dev/null 2>$OUT/$s.err || echo "slice $s rc=$?" ) &
